@@ -4,4 +4,5 @@ here=$(cd "$(dirname "$0")" && pwd)
 cd "$here" || exit 2
 mkdir -p .scratch replays evidence
 /venv/bin/python tools/translate.py "${BIOCANTOR_REPO:-/repo}" lean/BioCantor/Gen || exit 1
-cd lean && lake build BioCantor BioCantor.Driver.All BioCantor.Driver.SpecAll
+/venv/bin/python tools/gen_root.py
+cd lean && lake build BioCantor
